@@ -1246,4 +1246,272 @@ theorem step_refines {s : St} {ts : List Table} (g : Good s ts) (op : Op) :
           omega
         · omega
 
+/-! ### which operations write through, which rebind (valid in any state, shared locations included) -/
+
+
+/-- `place` changes an existing heap cell only if it is the location of a column written in place -/
+theorem place_frame (old : List (Name × Loc)) : ∀ (pc : PCols) (h h' : List Col) (fs : List (Name × Loc)),
+    place old h pc = .ok (h', fs) → ∀ l, l < h.length → (∀ o ∈ wrefs pc, (o, l) ∉ old) → h'[l]? = h[l]? := by
+  intro pc
+  induction pc with
+  | nil => intro h h' fs hp l _ _; simp [place] at hp; rw [hp.1]
+  | cons e r ih =>
+    intro h h' fs hp l hl hw
+    obtain ⟨n, prov, col⟩ := e
+    cases prov with
+    | fresh =>
+      simp only [place] at hp
+      split at hp
+      · cases hp
+      · rename_i h1 fs1 hp1
+        cases hp
+        rw [ih _ _ _ hp1 l (by simp; omega) (by simpa [wrefs, wrefOf] using hw), List.getElem?_append_left hl]
+    | kept o =>
+      simp only [place] at hp
+      split at hp
+      · cases hp
+      · split at hp
+        · cases hp
+        · rename_i h1 fs1 hp1
+          cases hp
+          exact ih _ _ _ hp1 l hl (by simpa [wrefs, wrefOf] using hw)
+    | written o =>
+      simp only [place] at hp
+      split at hp
+      · cases hp
+      · rename_i l0 hl0
+        split at hp
+        · split at hp
+          · cases hp
+          · rename_i h1 fs1 hp1
+            cases hp
+            have hw0 : (o, l) ∉ old ∧ ∀ o' ∈ wrefs r, (o', l) ∉ old := by simpa [wrefs, wrefOf] using hw
+            have hne : l0 ≠ l := by
+              rintro rfl
+              exact hw0.1 (mem_of_lookup _ _ _ hl0)
+            rw [ih _ _ _ hp1 l (by simpa using hl) hw0.2, List.getElem?_set_ne hne]
+        · cases hp
+
+theorem wrefs_nil_of {pc : PCols} (h : ∀ e ∈ pc, wrefOf e.2.1 = none) : wrefs pc = [] := by
+  unfold wrefs
+  rw [List.filterMap_eq_nil_iff]
+  exact h
+
+theorem wrefs_keepAll (cols : List (Name × Col)) : wrefs (keepAll cols) = [] :=
+  wrefs_nil_of (by intro e he; obtain ⟨p, _, rfl⟩ := List.mem_map.mp he; rfl)
+
+theorem wrefs_freshAll (cols : List (Name × Col)) : wrefs (freshAll cols) = [] :=
+  wrefs_nil_of (by intro e he; obtain ⟨p, _, rfl⟩ := List.mem_map.mp he; rfl)
+
+theorem wrefs_append (a b : PCols) : wrefs (a ++ b) = wrefs a ++ wrefs b := by simp [wrefs]
+
+theorem wrefs_mapE {f : Name × Col → Except Err (Name × Prov × Col)} {cols : List (Name × Col)} {pc : PCols}
+    (h : mapE f cols = .ok pc) (hf : ∀ p e, f p = .ok e → wrefOf e.2.1 = none) : wrefs pc = [] := by
+  refine wrefs_nil_of ?_
+  intro e he
+  obtain ⟨p, _, hpe⟩ := forall₂_mem_right (mapE_forall₂ _ _ _ h) he
+  exact hf p e hpe
+
+def IsSetSel : Op → Prop
+  | .setSel _ _ _ => True
+  | _ => False
+
+/-- **which operations write through**: only `set_selection` produces a column written in place; every other
+operation binds its result columns to kept or newly allocated arrays -/
+theorem tableOp_wrefs (get : Nat → Except Err Table) (k : Nat) (op : Op) (tgt : Target) (u : Upd) (out : Out)
+    (h : tableOp get k op = .ok (tgt, u, out)) (hop : ¬ IsSetSel op) : wrefs u.cols = [] := by
+  cases op <;> simp only [tableOp, bind_ok] at h
+  case append a b =>
+    obtain ⟨t, _, s, _, cols, hc, h⟩ := h
+    simp only [pure_eq, Except.ok.injEq, Prod.mk.injEq] at h; obtain ⟨_, rfl, _⟩ := h
+    exact wrefs_mapE hc (by intro p e hpe; unfold appendCol at hpe; split at hpe <;> cases hpe; rfl)
+  case appendField a m col =>
+    obtain ⟨t, _, h⟩ := h; split_ifs at h
+    simp only [pure_eq, Except.ok.injEq, Prod.mk.injEq] at h; obtain ⟨_, rfl, _⟩ := h
+    rw [wrefs_append, wrefs_keepAll]; rfl
+  case setItem a m col =>
+    obtain ⟨t, _, h⟩ := h
+    split_ifs at h <;> (simp only [pure_eq, Except.ok.injEq, Prod.mk.injEq] at h; obtain ⟨_, rfl, _⟩ := h)
+    · exact wrefs_nil_of (by intro e he; obtain ⟨p, _, rfl⟩ := List.mem_map.mp he; unfold setItemCol; split <;> rfl)
+    · rw [wrefs_append, wrefs_keepAll]; rfl
+  case removeField a m =>
+    obtain ⟨t, _, h⟩ := h; split_ifs at h
+    simp only [pure_eq, Except.ok.injEq, Prod.mk.injEq] at h; obtain ⟨_, rfl, _⟩ := h
+    exact wrefs_keepAll _
+  case rename a cv m =>
+    obtain ⟨t, _, cols, hc, h⟩ := h
+    simp only [pure_eq, Except.ok.injEq, Prod.mk.injEq] at h; obtain ⟨_, rfl, _⟩ := h
+    -- every entry of the renamed dict is an entry of the initial one or carries a payload of it
+    have key : ∀ (convs : List (Name × Name)) (d d' : PCols), (∀ e ∈ d, wrefOf e.2.1 = none) →
+        renameLoop t.keys m convs d = .ok d' → ∀ e ∈ d', wrefOf e.2.1 = none := by
+      intro convs
+      induction convs with
+      | nil => intro d d' hd h; simp [renameLoop] at h; subst h; exact hd
+      | cons cv convs ih =>
+        intro d d' hd h
+        obtain ⟨o, n⟩ := cv
+        unfold renameLoop at h
+        split_ifs at h
+        · split at h
+          · rename_i v hv
+            refine ih _ _ ?_ h
+            intro e he
+            unfold dset at he
+            split at he
+            · obtain ⟨p, hp, rfl⟩ := List.mem_map.mp he
+              split
+              · exact hd (o, v) (mem_of_lookup _ _ _ hv)
+              · exact hd p (List.mem_of_mem_filter hp)
+            · rcases List.mem_append.mp he with h1 | h1
+              · exact hd e (List.mem_of_mem_filter h1)
+              · simp at h1; subst h1; exact hd (o, v) (mem_of_lookup _ _ _ hv)
+          · cases h
+        · exact ih _ _ hd h
+    exact wrefs_nil_of (key cv _ _ (by intro e he; obtain ⟨p, _, rfl⟩ := List.mem_map.mp he; rfl) hc)
+  case tidyUp a keep =>
+    obtain ⟨t, _, h⟩ := h
+    simp only [pure_eq, Except.ok.injEq, Prod.mk.injEq] at h; obtain ⟨_, rfl, _⟩ := h
+    exact wrefs_keepAll _
+  case getSel a sel =>
+    obtain ⟨t, _, cols, _, h⟩ := h
+    simp only [pure_eq, Except.ok.injEq, Prod.mk.injEq] at h; obtain ⟨_, rfl, _⟩ := h
+    exact wrefs_freshAll _
+  case setSel a sel d => exact (hop trivial).elim
+  case sortBy a m perm =>
+    obtain ⟨t, _, h⟩ := h
+    split at h
+    · cases h
+    · split_ifs at h
+      simp only [bind_ok] at h
+      obtain ⟨ks, _, h⟩ := h
+      split_ifs at h
+      simp only [bind_ok] at h
+      obtain ⟨cols, hc, h⟩ := h
+      simp only [pure_eq, Except.ok.injEq, Prod.mk.injEq] at h; obtain ⟨_, rfl, _⟩ := h
+      exact wrefs_mapE hc (by intro p e hpe; unfold sortCol at hpe; split at hpe <;> cases hpe; rfl)
+  case copy a keep =>
+    obtain ⟨t, _, h⟩ := h
+    simp only [pure_eq, Except.ok.injEq, Prod.mk.injEq] at h; obtain ⟨_, rfl, _⟩ := h
+    exact wrefs_freshAll _
+  case setDtype a m dt =>
+    obtain ⟨t, _, h⟩ := h; split_ifs at h
+    simp only [pure_eq, Except.ok.injEq, Prod.mk.injEq] at h; obtain ⟨_, rfl, _⟩ := h
+    exact wrefs_nil_of (by
+      intro e he; obtain ⟨p, _, rfl⟩ := List.mem_map.mp he; unfold setDtypeCol
+      split
+      · split <;> rfl
+      · rfl)
+  case convert a cv exc =>
+    obtain ⟨t, _, h⟩ := h
+    simp only [pure_eq, Except.ok.injEq, Prod.mk.injEq] at h; obtain ⟨_, rfl, _⟩ := h
+    exact wrefs_nil_of (by
+      intro e he; obtain ⟨p, _, rfl⟩ := List.mem_map.mp he; unfold convertCol
+      split
+      · rfl
+      · split <;> rfl)
+  case indices a =>
+    obtain ⟨t, _, h⟩ := h
+    simp only [pure_eq, Except.ok.injEq, Prod.mk.injEq] at h; obtain ⟨_, rfl, _⟩ := h
+    exact wrefs_keepAll _
+  case new cols =>
+    split_ifs at h
+    simp only [pure_eq, Except.ok.injEq, Prod.mk.injEq] at h; obtain ⟨_, rfl, _⟩ := h
+    exact wrefs_freshAll _
+
+
+
+/-- heap part of the post-state of an operation of the heap layer: existing cells other than the locations of the
+columns written in place (only `set_selection` has such, and they are bound in its target) are unchanged -/
+theorem stepH_heap_frame (s : St) (op : Op) (l : Nat) (hl : l < s.heap.length)
+    (hw : ¬ IsSetSel op ∨ ∀ c sel d cont n, op = .setSel c sel d → s.conts[c]? = some cont → (n, l) ∉ cont.fields) :
+    (stepH s op).1.heap[l]? = s.heap[l]? := by
+  unfold stepH
+  cases hr : tableOp (viewAt s) s.conts.length op with
+  | error e => rfl
+  | ok r =>
+    obtain ⟨tgt, u, out⟩ := r
+    cases tgt with
+    | inplace c =>
+      simp only
+      cases hc : s.conts[c]? with
+      | none => rfl
+      | some cont =>
+        simp only
+        cases hp : place cont.fields s.heap u.cols with
+        | error e => rfl
+        | ok r2 =>
+          obtain ⟨h', fs⟩ := r2
+          simp only
+          refine place_frame _ _ _ _ _ hp l hl ?_
+          rcases hw with hw | hw
+          · rw [tableOp_wrefs _ _ _ _ _ _ hr hw]; intro o ho; cases ho
+          · by_cases hs : IsSetSel op
+            · intro o _ hm
+              cases op <;> try (exact hs.elim)
+              rename_i c' sel d
+              have hcc : c' = c := by
+                simp only [tableOp, bind_ok] at hr
+                obtain ⟨t, _, s2, _, srcs, _, cols, _, hr⟩ := hr
+                simp only [pure_eq, Except.ok.injEq, Prod.mk.injEq, Target.inplace.injEq] at hr
+                exact hr.1
+              subst hcc
+              exact hw c' sel d cont o rfl hc hm
+            · rw [tableOp_wrefs _ _ _ _ _ _ hr hs]; intro o ho; cases ho
+    | new =>
+      simp only
+      cases hp : place [] s.heap u.cols with
+      | error e => rfl
+      | ok r2 =>
+        obtain ⟨h', fs⟩ := r2
+        simp only
+        exact place_frame _ _ _ _ _ hp l hl (by intro o _ hm; cases hm)
+
+/-- at most one existing container is rebound by an operation of the heap layer -/
+theorem stepH_conts_frame (s : St) (op : Op) :
+    ∃ c, ∀ i, i ≠ c → i < s.conts.length → (stepH s op).1.conts[i]? = s.conts[i]? := by
+  unfold stepH
+  cases hr : tableOp (viewAt s) s.conts.length op with
+  | error e => exact ⟨0, fun _ _ _ => rfl⟩
+  | ok r =>
+    obtain ⟨tgt, u, out⟩ := r
+    cases tgt with
+    | inplace c =>
+      refine ⟨c, ?_⟩
+      intro i hic hi
+      simp only
+      cases hc : s.conts[c]? with
+      | none => rfl
+      | some cont =>
+        simp only
+        cases hp : place cont.fields s.heap u.cols with
+        | error e => rfl
+        | ok r2 => simp only [List.getElem?_set_ne (Ne.symm hic)]
+    | new =>
+      refine ⟨0, ?_⟩
+      intro i _ hi
+      simp only
+      cases hp : place [] s.heap u.cols with
+      | error e => rfl
+      | ok r2 => simp only [List.getElem?_append_left hi]
+
+theorem bindNew_heap (s : St) (c : Nat) (cont : Cont) (n l : Nat) : (bindNew s c cont n l).1.heap = s.heap := by
+  unfold bindNew
+  split
+  · rfl
+  · split
+    · rfl
+    · split <;> rfl
+
+theorem bindNew_conts (s : St) (c : Nat) (cont : Cont) (n l : Nat) (i : Nat) (hic : i ≠ c) :
+    (bindNew s c cont n l).1.conts[i]? = s.conts[i]? := by
+  unfold bindNew
+  split
+  · rfl
+  · split
+    · rfl
+    · split
+      · rfl
+      · simp only [List.getElem?_set_ne (Ne.symm hic)]
+
+
 end StoreP
